@@ -79,6 +79,7 @@ struct Built {
     root: SliceRoot,
 }
 #[derive(Clone)]
+#[allow(dead_code)]
 struct Blk {
     slot: u64,
     hid: u64,
@@ -652,7 +653,12 @@ fn main() {
                         }
                     };
                     let is_other_marker = name == "shred-other-last-marker";
+                    // a "hostile" response that happens to be byte-identical to the honest one (blocks with equal
+                    // slices have equal roots / trees) is simply a correct response
+                    let same_as_correct = wincode::serialize(&resp).ok() == wincode::serialize(&correct_response(&w, &blk, &req).1).ok();
+                    let name = if same_as_correct { "correct" } else { name };
                     w.respond(op.clone(), resp, name);
+                    if same_as_correct { continue; }
                     // a hostile response must not cancel the request it claims to answer
                     let still = w.repair.verif_outstanding().contains(&req);
                     // (a validly signed shred with the other last-slice marker *is* a valid answer to the request:
